@@ -5,7 +5,7 @@ from harness import gen_models as M
 
 class C15(Prop):
     id = 'C15'
-    theorems = ['C15.no_internal', 'C15.out_event_refused', 'C15.parse_event_out_ok', 'C15.bad_event_refused', 'C15.bad_interface_refused', 'C15.bad_document_refused']
+    theorems = ['C15.no_internal', 'C15.out_event_refused', 'C15.parse_event_out_ok', 'C15.bad_event_refused', 'C15.bad_interface_refused', 'C15.bad_document_refused', 'C15.jBadElems_le']
     proof_modules = ['DznProofs.C15', 'DznProofs.C15Input']
     level_rule = ('mutation stream: 1-3 faults (delete / retype / retag / re-direct any node) applied to '
                   'well-formed documents, plus arbitrary JSON values as root; non-trivial = the mutated '
